@@ -7,6 +7,7 @@ mod cmd_model;
 mod cmd_num;
 mod cmd_serve;
 mod cmd_threads;
+mod cmd_ptrace;
 mod cmd_pure;
 mod cmd_recognize;
 mod cmd_types;
@@ -29,6 +30,7 @@ fn main() {
     "num" => cmd_num::main(),
     "types" => cmd_types::main(),
     "pure" => cmd_pure::main(),
+    "ptrace" => cmd_ptrace::main(),
     _ => {
       eprintln!("usage: dv feel|ws|types");
       std::process::exit(2);
